@@ -41,6 +41,8 @@ pub enum Op {
     NestedAttach(usize, usize),
     /// ONE request holding a room mutation of room `r` and a new row of that room: room, entity, day
     RoomMutationWithRow(usize, usize, usize),
+    /// ONE deletion request listing a whole row first and then a reference of another row (both written on day 0): room, day
+    DeleteRowAndReference(usize, usize),
 }
 
 const ENTS: [&str; 2] = ["ns.P", "ns.Q"];
@@ -72,6 +74,7 @@ pub fn alphabet() -> Vec<Op> {
     a.push(Op::NestedUpdate(1, 1, 0));
     a.push(Op::NestedAttach(0, 1));
     a.push(Op::RoomMutationWithRow(0, 0, 1));
+    a.push(Op::DeleteRowAndReference(0, 1));
     a
 }
 
@@ -207,6 +210,17 @@ impl W18 {
                 let child = top.sub_nodes.values().flat_map(|v| v.iter()).next().ok_or("no nested child in the prepared owner")?;
                 Ok(vec![top.node_to_mutate.id, child.node_to_mutate.id])
             }
+            Op::DeleteRowAndReference(r, _) => {
+                // the row to delete and the owner of the reference were last written on different days
+                set_clock(day_clock(0) + 777 + self.serial as i64);
+                let rid = b64(&self.rooms[*r].id);
+                let x = self.u.peers[0].db.mutate_raw("mutate { ns.P { room_id:$r name:\"to delete\" } }", Some(params(&[("r", rid.clone())]))).await.map_err(|e| e.to_string())?;
+                set_clock(day_clock(0) - 9000 - self.serial as i64);
+                let y = self.u.peers[0].db.mutate_raw("mutate { ns.P { room_id:$r name:\"owner\" qs:[{ name:\"child\" }] } }", Some(params(&[("r", rid)]))).await.map_err(|e| e.to_string())?;
+                let top = &y.mutate_entities[0];
+                let child = top.sub_nodes.values().flat_map(|v| v.iter()).next().ok_or("no nested child in the prepared owner")?;
+                Ok(vec![x.mutate_entities[0].node_to_mutate.id, top.node_to_mutate.id, child.node_to_mutate.id])
+            }
             Op::NestedAttach(r, _) => {
                 set_clock(day_clock(0) - 5000 - self.serial as i64);
                 let q = self.u.peers[0]
@@ -284,6 +298,15 @@ impl W18 {
                 set_clock(day_clock(*d) + serial as i64);
                 Ok(a.mutate("mutate { ns.P { id:$id qs:[{ name:\"attached\" }] } }", Some(params(&[("id", b64(&target[0]))]))).await.is_ok())
             }
+            Op::DeleteRowAndReference(_, d) => {
+                set_clock(day_clock(*d) + serial as i64);
+                Ok(a.delete(
+                    "delete { ns.P { $x } ns.P { $y qs[$c] } }",
+                    Some(params(&[("x", b64(&target[0])), ("y", b64(&target[1])), ("c", b64(&target[2]))])),
+                )
+                .await
+                .is_ok())
+            }
             Op::RoomMutationWithRow(r, e, d) => {
                 set_clock(day_clock(*d) + 2000 + serial as i64);
                 let ev = REvent::AddRight { group: 0, entity: "ns.Q".into(), own: true, all: serial % 2 == 1 };
@@ -358,6 +381,7 @@ fn op_class(o: &Op) -> &'static str {
         Op::NestedUpdate(..) => "nested-update",
         Op::NestedAttach(..) => "nested-attach",
         Op::RoomMutationWithRow(..) => "room-mutation-with-row",
+        Op::DeleteRowAndReference(..) => "delete-row-and-reference",
     }
 }
 
